@@ -302,6 +302,40 @@ static void remove_link(void* void_arg, void* void_pool)
 /**
  * Create a link to the specified disk link.
  */
+/**
+ * Check if an ancestor of the specified pool entry is a symbolic link.
+ *
+ * This happens when a disk has a symlink with the same name of a directory
+ * of another disk. Going through it would lead outside the pool directory,
+ * usually inside a data disk.
+ */
+static int pool_ancestor_is_link(const char* pool_dir, const char* sub)
+{
+	char path[PATH_MAX];
+	size_t base;
+	char* c;
+
+	pathprint(path, sizeof(path), "%s%s", pool_dir, sub);
+
+	base = strlen(pool_dir);
+	if (base > strlen(path))
+		return 0;
+
+	c = strchr(path + base, '/');
+	while (c) {
+		struct stat st;
+
+		*c = 0;
+		if (lstat(path, &st) == 0 && S_ISLNK(st.st_mode))
+			return 1;
+		*c = '/';
+
+		c = strchr(c + 1, '/');
+	}
+
+	return 0;
+}
+
 static void make_link(tommy_hashdyn* poolset, const char* pool_dir, const char* share_dir, struct snapraid_disk* disk, const char* sub, int64_t mtime_sec, int mtime_nsec)
 {
 	char path[PATH_MAX];
@@ -348,6 +382,12 @@ static void make_link(tommy_hashdyn* poolset, const char* pool_dir, const char* 
 		}
 
 		pool_free(found);
+	}
+
+	/* never follow a link of the pool, it leads outside the pool directory */
+	if (pool_ancestor_is_link(pool_dir, sub)) {
+		log_fatal("WARNING! Duplicate pooling for '%s'\n", path);
+		return;
 	}
 
 	/* create the ancestor directories */
